@@ -1311,7 +1311,7 @@ class CanUnprotect(BaseSecurityContext):
         if unprotected.pop(COSE_COUNTERSIGNATURE0, None) is not None:
             try:
                 alg_signature = self.alg_signature
-            except NameError:
+            except (NameError, AttributeError):
                 raise DecodeError(
                     "Group messages can not be decoded with this non-group context"
                 )
